@@ -443,4 +443,7 @@ def run(ctx):
     ctx.run_rule("R10.8", "sibling agreement: parser and update generator agree on which scrut blocks carry a test case (non-empty code lines) [E-TABLE/E-PATH]", r10_8, floor=2)
     ctx.run_rule("R10.7", "the text a passing expectation is re-emitted from is the line as written: parse -> make -> original_string without trimming [E-FLOW]", r10_7, floor=3)
     ctx.run_rule("R10.11", "lines verbatim: the tokenizer hands every document line on unchanged (no trim / cut), so text outside the scrut blocks and the blocks' own lines are reproduced byte for byte (shared with C06 R6.15) [E-FLOW]", c06.r6_15, floor=5)
+    from . import c01
+    ctx.run_rule("R10.12", "assure_newline (how update writes every kept line back) names no character but `\\n` and calls no trimming: a kept line is written as it was read, plus at most the missing line feed [E-TABLE of constants]",
+                 lambda c: c01.r1_9(c, names=("assure_newline",), tag="assure-newline-only", min_bodies=4), floor=4)
     ctx.run_rule("R10.6", "consumed-line conservation in MarkdownIterator::next: each read line is stored once or consumed as a delimiter on every path [E-STATE by dataflow]", r10_6, floor=4)
